@@ -123,3 +123,154 @@ Lemma deployed_seq_example :
   serve_seq dispatch_cond method_reject [] RWRestoreOnMiss 8 ex_rs [0; 1]%nat ex_ctx
   = ([], 1%N, s_a ++ slash :: s_b).
 Proof. vm_compute. reflexivity. Qed.
+
+(** * Handlers that write to what the context handed them (seeded change C20-g) *)
+
+Definition same_route (a b : ctx) : Prop :=
+  c_routes a = c_routes b /\ c_isdir a = c_isdir b /\ c_method a = c_method b.
+
+Lemma same_route_refl c : same_route c c.
+Proof. repeat split. Qed.
+
+Lemma same_route_trans a b c : same_route a b -> same_route b c -> same_route a c.
+Proof. intros [A1 [A2 A3]] [B1 [B2 B3]]. repeat split; congruence. Qed.
+
+Lemma same_route_shift c n : same_route (shift c n) c.
+Proof. repeat split. Qed.
+
+Lemma set_pos_same_route a c : same_route a c -> set_pos a (c_pos c) = c.
+Proof. destruct a, c. intros [A1 [A2 A3]]. cbn in *. subst. reflexivity. Qed.
+
+Lemma miss_ctx_same r c : same_route (miss_ctx r c) c.
+Proof.
+  unfold miss_ctx. destruct (rel_empty c); [apply same_route_refl|].
+  destruct (trie_find_route (rt_trie r) (rel_route c)) as [hit p].
+  destruct (is_nil p); [apply same_route_refl | apply same_route_shift].
+Qed.
+
+(** what [Router.serve] hands to the handler it selects differs from the
+    context it got in the position only *)
+Lemma router_serve_same disp meth r c :
+  match router_serve_with disp meth r c with
+  | OIndex _ c' | ODefault _ c' | ONode _ c' => same_route c' c
+  | _ => True
+  end.
+Proof.
+  unfold router_serve_with. destruct (rel_empty c).
+  - destruct (rt_index r); [apply same_route_refl|]. unfold not_found. destruct (rt_miss r); [apply same_route_refl | exact I].
+  - destruct (trie_find_route (rt_trie r) (rel_route c)) as [hit p]. destruct (is_nil p).
+    + unfold not_found. destruct (rt_miss r); [apply same_route_refl | exact I].
+    + destruct (alookup p (rt_nodes r)) as [n|]; [|exact I].
+      destruct (eval_rcond n (shift c (length hit)) disp) as [[|]|]; [| |exact I].
+      * destruct (eval_rcond n (shift c (length hit)) meth) as [[|]|]; try exact I. apply same_route_shift.
+      * unfold not_found. destruct (rt_miss r); [apply same_route_shift | exact I].
+Qed.
+
+Section Writes.
+  Variables (disp meth : rcond).
+  Variable le : list (N * N).
+
+  Lemma serve_ctx_same w fuel : forall rs i c,
+    same_route (snd (serve_ctx disp meth le w fuel rs i c)) c.
+  Proof.
+    induction fuel as [|k IH]; intros rs i c; cbn [serve_ctx]; [apply same_route_refl|].
+    destruct (nth_error rs i) as [r|]; [|apply same_route_refl].
+    assert (Hgo : forall h c', same_route c' c ->
+      same_route (snd (if (1000 <=? h)%N then serve_ctx disp meth le w k rs (N.to_nat (h - 1000)) c'
+                       else ((Z.of_N h, rel c', leaf_res le h), c'))) c).
+    { intros h c' S. destruct (1000 <=? h)%N; [|exact S].
+      eapply same_route_trans; [apply IH | exact S]. }
+    pose proof (router_serve_same disp meth r c) as RS.
+    assert (Hb : same_route (snd
+      match router_serve_with disp meth r c with
+      | OIndex h c' | ODefault h c' | ONode h c' =>
+          if (1000 <=? h)%N then serve_ctx disp meth le w k rs (N.to_nat (h - 1000)) c'
+          else ((Z.of_N h, rel c', leaf_res le h), c')
+      | OMiss => (((-1)%Z, [], 1%N), miss_ctx r c)
+      | OBadMethod => (((-1)%Z, [], 2%N), miss_ctx r c)
+      | OPanic => (((-1)%Z, [], 3%N), c)
+      | OStuck => (r_stuck, c)
+      end) c).
+    { destruct (router_serve_with disp meth r c); cbn [snd]; auto using miss_ctx_same, same_route_refl. }
+    destruct w; [| exact Hb | apply same_route_refl].
+    match goal with |- context [if is_miss (fst ?b) then _ else _] => destruct (is_miss (fst b)) end;
+      [apply same_route_refl | exact Hb].
+  Qed.
+
+  (** With a fresh-copy accessor no handler write reaches the context: one
+      [Serve] call answers, and leaves behind, exactly what it does with
+      handlers that write nothing - WHATEVER the handlers write. *)
+  Theorem serve_ctx_w_fresh lw fuel : forall rs i c,
+    serve_ctx_w disp meth le AccFresh lw RWRestoreOnMiss fuel rs i c =
+    serve_ctx disp meth le RWRestoreOnMiss fuel rs i c.
+  Proof.
+    induction fuel as [|k IH]; intros rs i c; [reflexivity|].
+    pose proof (serve_ctx_same RWRestoreOnMiss (S k) rs i c) as SS.
+    cbn [serve_ctx_w serve_ctx] in *.
+    destruct (nth_error rs i) as [r|]; [|reflexivity].
+    cbn [apply_write].
+    set (bw := match router_serve_with disp meth r c with
+      | OIndex h c' | ODefault h c' | ONode h c' =>
+          if (1000 <=? h)%N then serve_ctx_w disp meth le AccFresh lw RWRestoreOnMiss k rs (N.to_nat (h - 1000)) c'
+          else ((Z.of_N h, rel c', leaf_res le h), c')
+      | OMiss => (((-1)%Z, [], 1%N), miss_ctx r c)
+      | OBadMethod => (((-1)%Z, [], 2%N), miss_ctx r c)
+      | OPanic => (((-1)%Z, [], 3%N), c)
+      | OStuck => (r_stuck, c)
+      end).
+    set (b := match router_serve_with disp meth r c with
+      | OIndex h c' | ODefault h c' | ONode h c' =>
+          if (1000 <=? h)%N then serve_ctx disp meth le RWRestoreOnMiss k rs (N.to_nat (h - 1000)) c'
+          else ((Z.of_N h, rel c', leaf_res le h), c')
+      | OMiss => (((-1)%Z, [], 1%N), miss_ctx r c)
+      | OBadMethod => (((-1)%Z, [], 2%N), miss_ctx r c)
+      | OPanic => (((-1)%Z, [], 3%N), c)
+      | OStuck => (r_stuck, c)
+      end) in *.
+    assert (E : bw = b).
+    { unfold bw, b. destruct (router_serve_with disp meth r c); try reflexivity;
+        destruct (1000 <=? h)%N; try reflexivity; apply IH. }
+    rewrite E. destruct (is_miss (fst b)) eqn:M; [|reflexivity].
+    f_equal. apply set_pos_same_route.
+    (* the body's context differs from c in the position only *)
+    clear -b. unfold b.
+    pose proof (router_serve_same disp meth r c) as RS.
+    destruct (router_serve_with disp meth r c); cbn [snd];
+      auto using miss_ctx_same, same_route_refl;
+      (destruct (1000 <=? h)%N; [eapply same_route_trans; [apply serve_ctx_same | exact RS] | exact RS]).
+  Qed.
+
+  Theorem serve_seq_w_fresh lw fuel rs : forall is c,
+    serve_seq_w disp meth le AccFresh lw RWRestoreOnMiss fuel rs is c =
+    fst (serve_seq disp meth le RWRestoreOnMiss fuel rs is c).
+  Proof.
+    induction is as [|i rest IH]; intros c; cbn [serve_seq_w serve_seq]; [reflexivity|].
+    rewrite serve_ctx_w_fresh.
+    destruct (serve_ctx disp meth le RWRestoreOnMiss fuel rs i c) as [x c'].
+    destruct (is_miss x); [|reflexivity].
+    rewrite IH. destruct (serve_seq disp meth le RWRestoreOnMiss fuel rs rest c') as [[hs f] rl]. reflexivity.
+  Qed.
+End Writes.
+
+(** An accessor that hands out the context's own slice is refuted: GET
+    /docs/secret; router 0 has the directory "docs" whose handler 1 does
+    [append(c.RelRoute()[:1], "index")] ... here: overwrites what it was
+    handed with "index" and misses; router 1 has the file "index" (handler 2).
+    Nothing registered for a prefix of /docs/secret is in router 1, yet
+    handler 2 runs. *)
+Definition s_docs : str := [100; 111; 99; 115]%N.
+Definition s_secret : str := [115; 101; 99; 114; 101; 116]%N.
+Definition s_index : str := [105; 110; 100; 101; 120]%N.
+Definition ex_rs_w : list router :=
+  [ match router_add_svc new_router s_docs (Some 1%N) true [] with Some (r, _) => r | None => new_router end;
+    match router_add_svc new_router (s_docs ++ slash :: s_index) (Some 2%N) false [] with
+    | Some (r, _) => r | None => new_router end ].
+Definition ex_ctx_w : ctx := new_ctx (slash :: s_docs ++ slash :: s_secret) s_get.
+Definition ex_lw (h : N) : option hwrite := if (h =? 1)%N then Some (w_fill s_index) else None.
+
+Lemma alias_accessor_refuted :
+  serve_seq_w dispatch_cond method_reject [(1%N, 1%N)] AccAlias ex_lw RWRestoreOnMiss 8 ex_rs_w [0; 1]%nat ex_ctx_w
+    = ([(1%Z, s_secret); (2%Z, [])], 0%N) /\
+  serve_seq_w dispatch_cond method_reject [(1%N, 1%N)] AccFresh ex_lw RWRestoreOnMiss 8 ex_rs_w [0; 1]%nat ex_ctx_w
+    = ([(1%Z, s_secret)], 1%N).
+Proof. vm_compute. split; reflexivity. Qed.
